@@ -400,10 +400,14 @@ class SimEvent:
     def set(self):
         self.k.yield_point('ev.set')
         self.flag = True
+        # a real thread can lose the processor right after the call too: a
+        # waiter may run before the caller's next statement
+        self.k.yield_point('ev.set.done')
 
     def clear(self):
         self.k.yield_point('ev.clear')
         self.flag = False
+        self.k.yield_point('ev.clear.done')
 
     def wait(self, timeout=None):
         self.k.block(lambda: self.flag, timeout, label='ev.wait')
